@@ -1,8 +1,31 @@
-// Mutator-closure translator for C04 (stdlib only).  Lists, from the current source of /repo, every call site in
-// pkg/blockchain and pkg/consensus/** of a method named Write, DropAll, Set, Del, NewBatch, Commit or RevertDiff (the ways to reach the engine
-// database or a batch destined for it), and every call of deleteBlock / the sync `reverter` with the expression passed as the
-// block to delete, and emits them as Coq lists (coq/Gen/Mutators.v).  Purely syntactic and fail-closed: anything named like a
-// mutator is listed, and the Coq side requires the list to be EXACTLY the expected one.
+// Mutator-closure translator for C04 / C13 (stdlib only) — SEMANTIC version.
+//
+// A small abstract interpretation over go/ast of pkg/blockchain and pkg/consensus (recursively; tests, *_verif.go and generated
+// codec files excluded).  Abstract values of expressions:
+//
+//	DB        the engine database handle: a selector whose field is `database` (c.database, d.database, …)
+//	B<k>      the k-th batch created (X.NewBatch() on a DB) along the analysed path
+//	P<i>      the i-th parameter of the function under analysis
+//	Tip       the result of X.LastBlock()
+//	?         anything else
+//
+// Local assignments are followed; calls to functions/methods of the scanned packages are INLINED (callee parameters bound to the
+// caller's abstract arguments, by bare name — every candidate of an ambiguous name — to depth 10, recursion cut), but only
+// callees that can reach a primitive.  Primitives:
+//
+//	obj.Set / obj.Del            obj = B/P: stage into obj;  obj = DB: DIRECT durable write
+//	X.Commit(obj) / X.RevertDiff(obj, …)   (diffdb: they write into their first argument) as above
+//	DB.Write(obj)                durable commit of obj;   DB.DropAll(): DIRECT
+//	deleteBlock(ctx, blk, …) / reverter(ctx, blk, …)     records the origin of blk
+//
+// Emitted (coq/Gen/Mutators.v), all independent of helper extraction / inlining / renaming of locals and helpers:
+//
+//	found_steps          for each exported step (processValidated, processGenesisBlock, deleteBlock, AddBlock, RemoveBlock,
+//	                     ClearTempBlocks): batches created, objects staged into, durable commits, direct writes
+//	found_global         number of syntactic DB.Write call sites, direct writes anywhere (also through a parameter bound to DB)
+//	found_delete_origin  every deleteBlock / reverter call gets a block that originates from LastBlock()
+//
+// Fail closed: parse errors, a missing step function, or an empty call set abort.
 package main
 
 import (
@@ -10,7 +33,6 @@ import (
 	"fmt"
 	"go/ast"
 	"go/parser"
-	"go/printer"
 	"go/token"
 	"os"
 	"path/filepath"
@@ -18,17 +40,130 @@ import (
 	"strings"
 )
 
-type site struct{ pkg, fn, recv, method string }
-
-func exprText(fset *token.FileSet, e ast.Expr) string {
-	var sb strings.Builder
-	if err := printer.Fprint(&sb, fset, e); err != nil {
-		return "?"
-	}
-	return strings.Join(strings.Fields(sb.String()), " ")
+type aval struct {
+	kind string // db | batch | param | tip | unk
+	n    int
 }
 
-func funcName(d *ast.FuncDecl) string {
+func (a aval) String() string {
+	switch a.kind {
+	case "db":
+		return "DB"
+	case "batch":
+		return fmt.Sprintf("B%d", a.n)
+	case "param":
+		return fmt.Sprintf("P%d", a.n)
+	case "tip":
+		return "Tip"
+	}
+	return "?"
+}
+
+type effect struct {
+	kind string // new | stage | write | direct | delcall
+	obj  aval
+	what string // for direct: description; for delcall: function containing the call
+}
+
+type fdecl struct {
+	rel, name, full string
+	d               *ast.FuncDecl
+}
+
+var (
+	funcs    []*fdecl
+	byName   = map[string][]*fdecl{}
+	relevant = map[*fdecl]bool{}
+	// poor man's types: struct fields, methods per receiver type, plain functions, first result type
+	structs = map[string]map[string]string{}
+	methods = map[string]map[string]*fdecl{}
+	plain   = map[string][]*fdecl{}
+	// function-valued fields of the syncers, bound in NewSyncer(..., c.processValidated, c.deleteBlock)
+	funcFields = map[string]string{"processor": "processValidated", "reverter": "deleteBlock"}
+)
+
+// typeName: bare name of the (pointed-to, package-qualified) named type of a type expression, "" if not a plain named type.
+func typeName(e ast.Expr) string {
+	switch x := e.(type) {
+	case *ast.Ident:
+		return x.Name
+	case *ast.StarExpr:
+		return typeName(x.X)
+	case *ast.SelectorExpr:
+		return x.Sel.Name
+	case *ast.ParenExpr:
+		return typeName(x.X)
+	}
+	return ""
+}
+
+func recvType(d *ast.FuncDecl) string {
+	if d.Recv != nil && len(d.Recv.List) == 1 {
+		return typeName(d.Recv.List[0].Type)
+	}
+	return ""
+}
+
+func resultType(d *ast.FuncDecl) string {
+	if d.Type.Results != nil && len(d.Type.Results.List) > 0 {
+		return typeName(d.Type.Results.List[0].Type)
+	}
+	return ""
+}
+
+// resolve: the functions a call may denote, using the static type of the receiver where it is known. A method call on a
+// receiver of unknown or foreign type resolves to nothing (primitives are handled separately).
+func (c *ctx) resolve(call *ast.CallExpr) []*fdecl {
+	switch fx := call.Fun.(type) {
+	case *ast.Ident:
+		return plain[fx.Name]
+	case *ast.SelectorExpr:
+		if target, ok := funcFields[fx.Sel.Name]; ok {
+			return byName[target]
+		}
+		if id, ok := fx.X.(*ast.Ident); ok {
+			if _, isVar := c.tenv[id.Name]; !isVar {
+				if _, isVal := c.env[id.Name]; !isVal {
+					return plain[fx.Sel.Name] // package-qualified function: blockchain.NewBlock(...)
+				}
+			}
+		}
+		if t := c.typeOf(fx.X); t != "" {
+			if m, ok := methods[t][fx.Sel.Name]; ok {
+				return []*fdecl{m}
+			}
+		}
+	}
+	return nil
+}
+
+func (c *ctx) typeOf(e ast.Expr) string {
+	switch x := e.(type) {
+	case *ast.Ident:
+		return c.tenv[x.Name]
+	case *ast.ParenExpr:
+		return c.typeOf(x.X)
+	case *ast.StarExpr:
+		return c.typeOf(x.X)
+	case *ast.UnaryExpr:
+		return c.typeOf(x.X)
+	case *ast.CompositeLit:
+		return typeName(x.Type)
+	case *ast.SelectorExpr:
+		if t := c.typeOf(x.X); t != "" {
+			return structs[t][x.Sel.Name]
+		}
+	case *ast.CallExpr:
+		for _, f := range c.resolve(x) {
+			if r := resultType(f.d); r != "" {
+				return r
+			}
+		}
+	}
+	return ""
+}
+
+func funcFull(d *ast.FuncDecl) string {
 	if d.Recv != nil && len(d.Recv.List) == 1 {
 		t := d.Recv.List[0].Type
 		if s, ok := t.(*ast.StarExpr); ok {
@@ -37,14 +172,194 @@ func funcName(d *ast.FuncDecl) string {
 		if id, ok := t.(*ast.Ident); ok {
 			return id.Name + "." + d.Name.Name
 		}
-		if ix, ok := t.(*ast.IndexExpr); ok {
-			if id, ok := ix.X.(*ast.Ident); ok {
-				return id.Name + "." + d.Name.Name
-			}
-		}
 		return "?." + d.Name.Name
 	}
 	return d.Name.Name
+}
+
+func calleeName(c *ast.CallExpr) (string, ast.Expr) {
+	switch fx := c.Fun.(type) {
+	case *ast.SelectorExpr:
+		return fx.Sel.Name, fx.X
+	case *ast.Ident:
+		return fx.Name, nil
+	}
+	return "", nil
+}
+
+var primitiveNames = map[string]bool{"NewBatch": true, "Set": true, "Del": true, "Write": true, "DropAll": true, "Commit": true,
+	"RevertDiff": true, "deleteBlock": true, "reverter": true}
+
+type ctx struct {
+	tenv    map[string]string
+	env     map[string]aval
+	effects *[]effect
+	nbatch  *int
+	stack   []*fdecl
+	batchAt map[token.Pos]aval
+}
+
+func (c *ctx) eval(e ast.Expr) aval {
+	switch x := e.(type) {
+	case *ast.Ident:
+		if v, ok := c.env[x.Name]; ok {
+			return v
+		}
+	case *ast.SelectorExpr:
+		if x.Sel.Name == "database" {
+			return aval{kind: "db"}
+		}
+	case *ast.ParenExpr:
+		return c.eval(x.X)
+	case *ast.CallExpr:
+		name, recv := calleeName(x)
+		if name == "LastBlock" {
+			return aval{kind: "tip"}
+		}
+		if name == "NewBatch" && recv != nil && c.eval(recv).kind == "db" {
+			if v, ok := c.batchAt[x.Pos()]; ok {
+				return v
+			}
+			*c.nbatch++
+			v := aval{kind: "batch", n: *c.nbatch}
+			c.batchAt[x.Pos()] = v
+			if os.Getenv("MUTDBG") != "" {
+				names := []string{}
+				for _, s := range c.stack {
+					names = append(names, s.full)
+				}
+				fmt.Fprintln(os.Stderr, "NEW via", strings.Join(names, " > "))
+			}
+			*c.effects = append(*c.effects, effect{kind: "new", obj: v})
+			return v
+		}
+	}
+	return aval{kind: "unk"}
+}
+
+func (c *ctx) emitStage(obj aval, what string) {
+	switch obj.kind {
+	case "db":
+		*c.effects = append(*c.effects, effect{kind: "direct", obj: obj, what: what})
+	case "batch", "param":
+		*c.effects = append(*c.effects, effect{kind: "stage", obj: obj})
+	}
+}
+
+func analyze(f *fdecl, args []aval, parent *ctx) {
+	c := &ctx{env: map[string]aval{}, tenv: map[string]string{}, effects: parent.effects, nbatch: parent.nbatch,
+		stack: append(append([]*fdecl{}, parent.stack...), f), batchAt: map[token.Pos]aval{}}
+	if f.d.Recv != nil && len(f.d.Recv.List) == 1 && len(f.d.Recv.List[0].Names) == 1 {
+		c.tenv[f.d.Recv.List[0].Names[0].Name] = recvType(f.d)
+	}
+	i := 0
+	for _, fl := range f.d.Type.Params.List {
+		if len(fl.Names) == 0 {
+			i++
+			continue
+		}
+		for _, nm := range fl.Names {
+			if i < len(args) {
+				c.env[nm.Name] = args[i]
+			} else {
+				c.env[nm.Name] = aval{kind: "unk"}
+			}
+			c.tenv[nm.Name] = typeName(fl.Type)
+			i++
+		}
+	}
+	ast.Inspect(f.d.Body, func(n ast.Node) bool {
+		switch x := n.(type) {
+		case *ast.AssignStmt:
+			if len(x.Lhs) == len(x.Rhs) {
+				for k := range x.Lhs {
+					if id, ok := x.Lhs[k].(*ast.Ident); ok && id.Name != "_" {
+						c.env[id.Name] = c.eval(x.Rhs[k])
+						c.tenv[id.Name] = c.typeOf(x.Rhs[k])
+					}
+				}
+			} else if len(x.Rhs) == 1 {
+				for k := range x.Lhs {
+					if id, ok := x.Lhs[k].(*ast.Ident); ok && id.Name != "_" {
+						c.env[id.Name] = aval{kind: "unk"}
+						c.tenv[id.Name] = ""
+						if k == 0 {
+							c.tenv[id.Name] = c.typeOf(x.Rhs[0])
+						}
+					}
+				}
+			}
+		case *ast.CallExpr:
+			name, recv := calleeName(x)
+			rv := aval{kind: "unk"}
+			if recv != nil {
+				rv = c.eval(recv)
+			}
+			switch name {
+			case "NewBatch":
+				c.eval(x) // registers the batch
+			case "Set", "Del":
+				c.emitStage(rv, name+" on the database handle in "+f.full)
+			case "DropAll":
+				if rv.kind == "db" {
+					*c.effects = append(*c.effects, effect{kind: "direct", obj: rv, what: "DropAll in " + f.full})
+				}
+			case "Write":
+				if rv.kind == "db" && len(x.Args) == 1 {
+					*c.effects = append(*c.effects, effect{kind: "write", obj: c.eval(x.Args[0]), what: f.full})
+				}
+			case "Commit", "RevertDiff":
+				if len(x.Args) > 0 {
+					c.emitStage(c.eval(x.Args[0]), name+" into the database handle in "+f.full)
+				}
+			case "deleteBlock", "reverter":
+				if len(x.Args) >= 2 {
+					*c.effects = append(*c.effects, effect{kind: "delcall", obj: c.eval(x.Args[1]), what: f.full})
+				}
+			}
+			if len(c.stack) < 10 {
+				for _, cand := range c.resolve(x) {
+					if !relevant[cand] {
+						continue
+					}
+					rec := false
+					for _, s := range c.stack {
+						if s == cand {
+							rec = true
+						}
+					}
+					if rec {
+						continue
+					}
+					av := make([]aval, len(x.Args))
+					for k, a := range x.Args {
+						av[k] = c.eval(a)
+					}
+					analyze(cand, av, c)
+				}
+			}
+		}
+		return true
+	})
+}
+
+func rootAnalyze(f *fdecl) []effect {
+	var eff []effect
+	nb := 0
+	args := []aval{}
+	n := 0
+	for _, fl := range f.d.Type.Params.List {
+		k := len(fl.Names)
+		if k == 0 {
+			k = 1
+		}
+		for j := 0; j < k; j++ {
+			args = append(args, aval{kind: "param", n: n})
+			n++
+		}
+	}
+	analyze(f, args, &ctx{effects: &eff, nbatch: &nb, tenv: map[string]string{}, env: map[string]aval{}})
+	return eff
 }
 
 func q(s string) string { return "\"" + strings.ReplaceAll(s, "\"", "\"\"") + "\"" }
@@ -53,22 +368,13 @@ func main() {
 	repo := flag.String("repo", "/repo", "repository root")
 	out := flag.String("out", "", "output .v file")
 	flag.Parse()
-	roots := []string{"pkg/blockchain", "pkg/consensus"}
-	methods := map[string]bool{"Write": true, "DropAll": true, "Set": true, "Del": true, "NewBatch": true, "Commit": true, "RevertDiff": true}
-	var sites []site
-	var deletes [][3]string // function, argument expression, how that variable is obtained in the function
-	type fdecl struct {
-		rel, fn string
-		d       *ast.FuncDecl
-	}
-	var all []fdecl
 	fset := token.NewFileSet()
-	for _, root := range roots {
+	for _, root := range []string{"pkg/blockchain", "pkg/consensus"} {
 		err := filepath.Walk(filepath.Join(*repo, root), func(path string, info os.FileInfo, err error) error {
 			if err != nil {
 				return err
 			}
-			if info.IsDir() || !strings.HasSuffix(path, ".go") || strings.HasSuffix(path, "_test.go") {
+			if info.IsDir() || !strings.HasSuffix(path, ".go") || strings.HasSuffix(path, "_test.go") || strings.HasSuffix(path, "_codec.go") {
 				return nil
 			}
 			src, err := os.ReadFile(path)
@@ -76,10 +382,7 @@ func main() {
 				return err
 			}
 			if strings.HasPrefix(string(src), "//go:build verif") {
-				return nil // verification hooks: not part of the shipped binary
-			}
-			if strings.HasSuffix(path, "_codec.go") {
-				return nil // generated encoders: Write* calls on codec writers only; method names differ (WriteUInt32, …)
+				return nil
 			}
 			f, err := parser.ParseFile(fset, path, src, 0)
 			if err != nil {
@@ -87,40 +390,38 @@ func main() {
 			}
 			rel, _ := filepath.Rel(filepath.Join(*repo, "pkg"), filepath.Dir(path))
 			for _, decl := range f.Decls {
-				fd, ok := decl.(*ast.FuncDecl)
-				if !ok || fd.Body == nil {
-					continue
-				}
-				fn := funcName(fd)
-				all = append(all, fdecl{rel, fn, fd})
-				assigned := map[string]string{}
-				ast.Inspect(fd.Body, func(n ast.Node) bool {
-					if as, ok := n.(*ast.AssignStmt); ok && len(as.Lhs) == 1 && len(as.Rhs) == 1 {
-						if id, ok := as.Lhs[0].(*ast.Ident); ok {
-							assigned[id.Name] = exprText(fset, as.Rhs[0])
+				if fd, ok := decl.(*ast.FuncDecl); ok && fd.Body != nil {
+					x := &fdecl{rel: rel, name: fd.Name.Name, full: funcFull(fd), d: fd}
+					funcs = append(funcs, x)
+					byName[x.name] = append(byName[x.name], x)
+					if rt := recvType(fd); rt != "" {
+						if methods[rt] == nil {
+							methods[rt] = map[string]*fdecl{}
 						}
+						methods[rt][x.name] = x
+					} else {
+						plain[x.name] = append(plain[x.name], x)
 					}
-					return true
-				})
-				ast.Inspect(fd.Body, func(n ast.Node) bool {
-					call, ok := n.(*ast.CallExpr)
-					if !ok {
-						return true
+				}
+				if gd, ok := decl.(*ast.GenDecl); ok {
+					for _, sp := range gd.Specs {
+						ts, ok := sp.(*ast.TypeSpec)
+						if !ok {
+							continue
+						}
+						st, ok := ts.Type.(*ast.StructType)
+						if !ok {
+							continue
+						}
+						m := map[string]string{}
+						for _, fl := range st.Fields.List {
+							for _, nm := range fl.Names {
+								m[nm.Name] = typeName(fl.Type)
+							}
+						}
+						structs[ts.Name.Name] = m
 					}
-					sel, ok := call.Fun.(*ast.SelectorExpr)
-					if !ok {
-						return true
-					}
-					name := sel.Sel.Name
-					if methods[name] {
-						sites = append(sites, site{rel, fn, exprText(fset, sel.X), name})
-					}
-					if (name == "deleteBlock" || name == "reverter") && len(call.Args) >= 2 {
-						arg := exprText(fset, call.Args[1])
-						deletes = append(deletes, [3]string{rel + ":" + fn, arg, assigned[arg]})
-					}
-					return true
-				})
+				}
 			}
 			return nil
 		})
@@ -129,156 +430,144 @@ func main() {
 			os.Exit(2)
 		}
 	}
-	// ---- writer parameters, one level of indirection -------------------------------------------------------------
-	// A parameter p of a function F is a *writer parameter* when F's body calls p.Set / p.Del / p.Write / p.DropAll, or hands p
-	// to Commit / RevertDiff (diffdb: they write into their argument), or hands p to a writer parameter of another function
-	// (two propagation rounds).  Every call site of such an F is listed with the text of the argument bound to p; so are the
-	// first arguments of Commit / RevertDiff calls.  A batch is fine; the database handle there is a direct durable write that
-	// no `x.database.Set(` pattern shows.
-	writerIdx := map[string]map[int]bool{} // function (bare name) -> indexes of writer parameters
-	paramIndex := func(d *ast.FuncDecl) map[string]int {
-		m := map[string]int{}
-		i := 0
-		for _, f := range d.Type.Params.List {
-			if len(f.Names) == 0 {
-				i++
-				continue
-			}
-			for _, nm := range f.Names {
-				m[nm.Name] = i
-				i++
-			}
-		}
-		return m
-	}
-	mark := func(name string, idx int) bool {
-		if writerIdx[name] == nil {
-			writerIdx[name] = map[int]bool{}
-		}
-		if writerIdx[name][idx] {
-			return false
-		}
-		writerIdx[name][idx] = true
-		return true
-	}
-	for round := 0; round < 3; round++ {
-		for _, f := range all {
-			pi := paramIndex(f.d)
-			ast.Inspect(f.d.Body, func(n ast.Node) bool {
-				call, ok := n.(*ast.CallExpr)
-				if !ok {
-					return true
-				}
-				callee := ""
-				switch fx := call.Fun.(type) {
-				case *ast.SelectorExpr:
-					callee = fx.Sel.Name
-					if id, ok := fx.X.(*ast.Ident); ok {
-						if idx, isParam := pi[id.Name]; isParam {
-							switch callee {
-							case "Set", "Del", "Write", "DropAll":
-								mark(f.d.Name.Name, idx)
-							}
-						}
-					}
-				case *ast.Ident:
-					callee = fx.Name
-				}
-				for ai, arg := range call.Args {
-					id, ok := arg.(*ast.Ident)
-					if !ok {
-						continue
-					}
-					idx, isParam := pi[id.Name]
-					if !isParam {
-						continue
-					}
-					if (callee == "Commit" || callee == "RevertDiff") && ai == 0 {
-						mark(f.d.Name.Name, idx)
-					}
-					if writerIdx[callee][ai] {
-						mark(f.d.Name.Name, idx)
-					}
-				}
-				return true
-			})
-		}
-	}
-	var wargs [][3]string // caller, callee, argument text
-	for _, f := range all {
+	// relevant = can reach a primitive (fixpoint over the by-name call graph)
+	calls := map[*fdecl][]string{}
+	for _, f := range funcs {
 		ast.Inspect(f.d.Body, func(n ast.Node) bool {
-			call, ok := n.(*ast.CallExpr)
-			if !ok {
-				return true
-			}
-			callee := ""
-			switch fx := call.Fun.(type) {
-			case *ast.SelectorExpr:
-				callee = fx.Sel.Name
-			case *ast.Ident:
-				callee = fx.Name
-			}
-			for ai, arg := range call.Args {
-				if writerIdx[callee][ai] || ((callee == "Commit" || callee == "RevertDiff") && ai == 0) {
-					wargs = append(wargs, [3]string{f.rel + ":" + f.fn, callee, exprText(fset, arg)})
+			if c, ok := n.(*ast.CallExpr); ok {
+				name, _ := calleeName(c)
+				if name != "" {
+					calls[f] = append(calls[f], name)
+					if primitiveNames[name] {
+						relevant[f] = true
+					}
 				}
 			}
 			return true
 		})
 	}
-	sort.Slice(wargs, func(i, j int) bool {
-		return wargs[i][0]+"|"+wargs[i][1]+"|"+wargs[i][2] < wargs[j][0]+"|"+wargs[j][1]+"|"+wargs[j][2]
-	})
-
-	sort.Slice(sites, func(i, j int) bool {
-		a, b := sites[i], sites[j]
-		return a.pkg+"|"+a.fn+"|"+a.recv+"|"+a.method < b.pkg+"|"+b.fn+"|"+b.recv+"|"+b.method
-	})
-	// collapse duplicates (same function, receiver, method) keeping a count
-	type cs struct {
-		s site
-		n int
-	}
-	var cl []cs
-	for _, s := range sites {
-		if len(cl) > 0 && cl[len(cl)-1].s == s {
-			cl[len(cl)-1].n++
-		} else {
-			cl = append(cl, cs{s, 1})
+	for changed := true; changed; {
+		changed = false
+		for _, f := range funcs {
+			if relevant[f] {
+				continue
+			}
+			for _, name := range calls[f] {
+				for _, g := range byName[name] {
+					if relevant[g] {
+						relevant[f] = true
+						changed = true
+					}
+				}
+			}
 		}
 	}
-	sort.Slice(deletes, func(i, j int) bool { return deletes[i][0]+deletes[i][1] < deletes[j][0]+deletes[j][1] })
+	called := map[*fdecl]bool{}
+	for _, f := range funcs {
+		for _, name := range calls[f] {
+			for _, g := range byName[name] {
+				if g != f {
+					called[g] = true
+				}
+			}
+		}
+	}
+
+	// ---- (b) per exported step
+	steps := []string{"Executer.processValidated", "Executer.processGenesisBlock", "Executer.deleteBlock", "Chain.AddBlock", "Chain.RemoveBlock",
+		"DataAccess.ClearTempBlocks"}
+	var stepLines []string
+	for _, sname := range steps {
+		var f *fdecl
+		for _, g := range funcs {
+			if g.full == sname {
+				f = g
+			}
+		}
+		if f == nil {
+			fmt.Fprintln(os.Stderr, "mutators: step function not found (fail closed):", sname)
+			os.Exit(2)
+		}
+		eff := rootAnalyze(f)
+		news, writes, direct := []string{}, []string{}, []string{}
+		staged := map[string]bool{}
+		for _, e := range eff {
+			switch e.kind {
+			case "new":
+				news = append(news, e.obj.String())
+			case "stage":
+				staged[e.obj.String()] = true
+			case "write":
+				writes = append(writes, e.obj.String())
+			case "direct":
+				direct = append(direct, e.what)
+			}
+		}
+		st := []string{}
+		for k := range staged {
+			st = append(st, k)
+		}
+		sort.Strings(st)
+		sort.Strings(direct)
+		stepLines = append(stepLines, fmt.Sprintf("  (%s, %s)", q(sname), q(fmt.Sprintf("batches created [%s]; staged into {%s}; durable commits [%s]; direct database writes [%s]",
+			strings.Join(news, ","), strings.Join(st, ","), strings.Join(writes, ","), strings.Join(direct, " | ")))))
+	}
+
+	// ---- (a) global, (c) origin of the blocks handed to deleteBlock
+	nWrite := 0
+	directAll := map[string]bool{}
+	delCalls, delBad := 0, []string{}
+	for _, f := range funcs {
+		if !relevant[f] {
+			continue
+		}
+		for _, e := range rootAnalyze(f) {
+			switch e.kind {
+			case "direct":
+				directAll[e.what] = true
+			case "delcall":
+				switch {
+				case e.obj.kind == "tip":
+					delCalls++
+				case e.obj.kind == "param" && called[f]:
+					// judged where f is called, with the real binding
+				default:
+					delBad = append(delBad, fmt.Sprintf("%s (reached from %s): %s", e.what, f.full, e.obj))
+				}
+			}
+		}
+		// syntactic DB.Write call sites of this function alone
+		c := &ctx{env: map[string]aval{}, tenv: map[string]string{}}
+		ast.Inspect(f.d.Body, func(n ast.Node) bool {
+			if call, ok := n.(*ast.CallExpr); ok {
+				if name, recv := calleeName(call); name == "Write" && recv != nil && c.eval(recv).kind == "db" {
+					nWrite++
+				}
+			}
+			return true
+		})
+	}
+	dl := []string{}
+	for k := range directAll {
+		dl = append(dl, k)
+	}
+	sort.Strings(dl)
+	sort.Strings(delBad)
+	if nWrite == 0 || delCalls == 0 {
+		fmt.Fprintln(os.Stderr, "mutators: no database.Write / deleteBlock call found (fail closed)")
+		os.Exit(2)
+	}
+
 	var sb strings.Builder
 	sb.WriteString("(* GENERATED by translate/mutators from /repo, directories pkg/blockchain and pkg/consensus (recursively). Do not edit. *)\n")
 	sb.WriteString("From Coq Require Import List String NArith.\nImport ListNotations.\nLocal Open Scope string_scope.\n\n")
-	sb.WriteString("(* (package dir, function, receiver expression, method, number of call sites) *)\n")
-	sb.WriteString("Definition found_sites : list (string * string * string * string * N) := [\n")
-	for i, c := range cl {
-		sep := ";"
-		if i == len(cl)-1 {
-			sep = ""
-		}
-		fmt.Fprintf(&sb, "  (%s, %s, %s, %s, %d%%N)%s\n", q(c.s.pkg), q(c.s.fn), q(c.s.recv), q(c.s.method), c.n, sep)
-	}
-	sb.WriteString("].\n\n(* calls of deleteBlock / reverter: (function, block argument, how the argument was obtained in that function) *)\n")
-	sb.WriteString("Definition found_delete_calls : list (string * string * string) := [\n")
-	for i, d := range deletes {
-		sep := ";"
-		if i == len(deletes)-1 {
-			sep = ""
-		}
-		fmt.Fprintf(&sb, "  (%s, %s, %s)%s\n", q(d[0]), q(d[1]), q(d[2]), sep)
-	}
-	sb.WriteString("].\n\n(* arguments bound to writer parameters (one level): (caller, callee, argument); see translate/mutators *)\n")
-	sb.WriteString("Definition found_writer_args : list (string * string * string) := [\n")
-	for i, d := range wargs {
-		sep := ";"
-		if i == len(wargs)-1 {
-			sep = ""
-		}
-		fmt.Fprintf(&sb, "  (%s, %s, %s)%s\n", q(d[0]), q(d[1]), q(d[2]), sep)
-	}
-	sb.WriteString("].\n")
+	sb.WriteString("(* per exported step, callees inlined: batches created, objects staged into, durable commits, direct writes *)\n")
+	sb.WriteString("Definition found_steps : list (string * string) := [\n" + strings.Join(stepLines, ";\n") + "\n].\n\n")
+	sb.WriteString("(* whole packages: database.Write call sites; direct writes (also through a parameter bound to the database handle) *)\n")
+	fmt.Fprintf(&sb, "Definition found_global : list string := [\n  %s;\n  %s\n].\n\n", q(fmt.Sprintf("database.Write call sites: %d", nWrite)),
+		q("direct database writes: ["+strings.Join(dl, " | ")+"]"))
+	sb.WriteString("(* every block handed to deleteBlock / reverter originates from LastBlock() (local assignments and helper parameters followed) *)\n")
+	fmt.Fprintf(&sb, "Definition found_delete_origin : list string := [\n  %s\n].\n", q("block arguments not originating from LastBlock(): ["+strings.Join(delBad, " | ")+"]"))
 	if *out == "" {
 		fmt.Print(sb.String())
 		return
